@@ -185,7 +185,7 @@ func C09(r *core.Run) {
 		FullLen, MaxLen  int
 	}
 	spec := in{dir, r.Pick(2, 3), r.Pick(3, 4)}
-	if r.Degraded() {
+	if r.Degraded() || !inproc.ShimAvailable {
 		spec = in{dir, 1, 1}
 	}
 	outs, deaths := core.Parallel(r, "sweep", spec, r.Workers, func(in in, shard, n int, emit func(c09Out)) {
